@@ -29,7 +29,7 @@ RULE = (
     "allowed for stage_wrapper, every subset for the others) from the forest P1{c1a,c1b}, P2{c2a}, S (quick: the [obj]+children and Status response styles on lists of 1-2 devices only); scripts = every placement of <= J "
     "injections (quick: N<=3,J=1; thorough: N<=3,J=2 plus N=4,J=1 on the configurations whose inner vocabulary matters) from {throw E1, RequestStop, RequestAbort} at EVERY message the wrapped generator yields - "
     "the inner plan's and the wrapper's own (stage, open_run, subscribe, install_suspender, monitor, kickoff, their waits, and the undo messages) - "
-    "(thorough, stage_wrapper on 3-device lists: every message for inner programs <= 2 nodes, inner messages only for exactly 3 nodes), everything else answered by "
+    "(thorough, stage_wrapper on 3-device lists: every message for inner programs <= 2 nodes, inner messages only for exactly 3 nodes; quick, monitor/fly with the run-key vocabulary: inner messages only), everything else answered by "
     "the responder, run to termination; oracle per wrapper on the emitted trace, judged on what was ACKNOWLEDGED (a run is open / a device staged, monitored, kicked off / a token "
     "subscribed / a suspender installed once its message got a normal response; a 'do' message answered by an exception is a don't-care): as many close_run as acknowledged open_run, exit_status matching the "
     "outcome of the wrapped plan; unstage sequence (restricted to devices of acknowledged stage messages) = reverse of the stage sequence, each once, after the plan's "
@@ -208,7 +208,9 @@ def _configs(tier):
                 out.append((w, {"devices": list(devs)}, fam("runs", n - 1 if len(devs) > 1 and red else n)))
                 out.append((w, {"devices": list(devs)}, fam("run_wrapper", 2 if red else 3)))
                 if len(devs) <= 2:
-                    out.append((w, {"devices": list(devs)}, fam("keyed", 3)))
+                    # quick: the run-key vocabulary with injections at the inner messages only (the wrapper's own phases
+                    # are exercised under injection by the 'runs' and 'run_wrapper' families)
+                    out.append((w, {"devices": list(devs)}, ("keyed", 3, ex, inj, "inner") if red else fam("keyed", 3)))
     return out
 
 
